@@ -51,7 +51,15 @@
 //	            LintGlue.lint_msg maps the format literal to the message constructor of Lint.v (table there);
 //	            every literal/argument-kind combination is checked to be in the table (fmt_known_k lemmas
 //	            in the generated file); arguments: strings -> FStr, integers -> FInt, floats -> FFloat;
-//	            continue, break (unlabelled), return nil.
+//	            continue, break (unlabelled), return nil;
+//	            counts := make(map[reflect.Type]int); counts[k]++ (-> map_inc_kind: the entry becomes old value + 1,
+//	            absent = 0; Go's int does not wrap here: a count is bounded by the number of definitions);
+//	            `if len(pass.File.Defs) > 0 { .. pass.File.Defs[0] .. }` (-> match on the list, l[0] = its head; no
+//	            other slice indexing is in the subset, so no index panic is).
+//	            further expressions: counts[k] (absent = 0), reflect.TypeOf(d) on a dbc.Def (-> Lint.kind_of d; a
+//	            helper `return []dbc.Def{&dbc.T{}, ..}` is the list of LintGlue's zero_T values, of which only the
+//	            dynamic type can be observed), scanner.Position{Filename: _, Line: a, Column: b} (-> go_position a b:
+//	            the model's positions carry no file name; offset 0).
 //	expressions constants (go/types), locals, x.F, pass.File.Defs / .Data, len (go_len), string conversions
 //	            (identity), ! && ||, == != < <= > >= on integers and == != on strings, > on float64, uint64 * + ,
 //	            strings.HasPrefix/HasSuffix (Lint.has_prefix/has_suffix), identifiers.IsCamelCase
@@ -91,6 +99,7 @@ type tr struct {
 	names    map[types.Object]string // Go local -> Coq name
 	fmts     *[]string               // fmt_known lemmas (shared)
 	analyzer string
+	guarded  string // Coq text of the slice l inside `if len(l) > 0 { .. }`: l[0] is the matched head g_hd
 }
 
 func (t *tr) failAt(n ast.Node, format string, a ...interface{}) {
@@ -260,6 +269,38 @@ func (t *tr) expr(e ast.Expr) string {
 		return t.binary(x)
 	case *ast.CallExpr:
 		return t.call(x)
+	case *ast.IndexExpr:
+		if mt, isSet := t.mapKind(x.X); mt != nil {
+			if isSet || !isInteger(mt.Elem()) {
+				t.failAt(e, "map read without comma-ok on a map whose values are not integers")
+			}
+			return fmt.Sprintf("(map_getd_%s %s %s)", t.keySuffix(e, mt), t.expr(x.Index), t.expr(x.X))
+		}
+		if tv, ok := t.info.Types[x.Index]; ok && tv.Value != nil && tv.Value.ExactString() == "0" && t.guarded != "" && t.expr(x.X) == t.guarded {
+			return "g_hd"
+		}
+		t.failAt(e, "index expression outside the subset (only l[0] directly under `if len(l) > 0`, and integer-valued map reads)")
+	case *ast.CompositeLit:
+		if namedIs(t.info.TypeOf(x), "text/scanner", "Position") {
+			line, col := "0", "0"
+			for _, el := range x.Elts {
+				kv, ok := el.(*ast.KeyValueExpr)
+				if !ok {
+					t.failAt(el, "scanner.Position literal without field names")
+				}
+				switch kv.Key.(*ast.Ident).Name {
+				case "Filename": // positions of the model carry no file name
+				case "Line":
+					line = t.expr(kv.Value)
+				case "Column":
+					col = t.expr(kv.Value)
+				default:
+					t.failAt(kv, "scanner.Position field %s outside the subset", kv.Key.(*ast.Ident).Name)
+				}
+			}
+			return "(go_position " + line + " " + col + ")"
+		}
+		t.failAt(e, "composite literal outside the subset")
 	}
 	t.failAt(e, "expression %T outside the subset", e)
 	return ""
@@ -349,6 +390,11 @@ func (t *tr) call(c *ast.CallExpr) string {
 	case "go.einride.tech/can/internal/identifiers.IsCamelCase":
 		t.camel = true
 		return "(is_camel_case uni_digit uni_upper " + t.expr(c.Args[0]) + ")"
+	case "reflect.TypeOf":
+		if !namedIs(t.info.TypeOf(c.Args[0]), dbcPath, "Def") {
+			t.failAt(c, "reflect.TypeOf of a value that is not a dbc.Def")
+		}
+		return "(kind_of " + t.expr(c.Args[0]) + ")"
 	case dbcPath + ".IsIndependentSignalsMessage":
 		return "(IsIndependentSignalsMessage " + t.expr(c.Args[0]) + ")"
 	}
@@ -378,7 +424,28 @@ func (t *tr) helper(at ast.Node, name string) string {
 				t.failAt(fd, "helper %s: body is not a single return of a map literal", name)
 			}
 			cn := "h_" + t.analyzer + "_" + name
-			t.helpers[name] = fmt.Sprintf("Definition %s := %s.\n", cn, t.mapLit(rs.Results[0]))
+			var lit string
+			if cl, ok := rs.Results[0].(*ast.CompositeLit); ok {
+				if sl, ok := t.info.TypeOf(cl).Underlying().(*types.Slice); ok && namedIs(sl.Elem(), dbcPath, "Def") {
+					var items []string
+					for _, el := range cl.Elts {
+						u, ok := el.(*ast.UnaryExpr)
+						var in *ast.CompositeLit
+						if ok && u.Op == token.AND {
+							in, _ = u.X.(*ast.CompositeLit)
+						}
+						if in == nil || len(in.Elts) != 0 || dbcStruct(t.info.TypeOf(in)) == "" {
+							t.failAt(el, "element of a []dbc.Def literal that is not &dbc.XxxDef{}")
+						}
+						items = append(items, "zero_"+dbcStruct(t.info.TypeOf(in)))
+					}
+					lit = "[" + strings.Join(items, "; ") + "]"
+				}
+			}
+			if lit == "" {
+				lit = t.mapLit(rs.Results[0])
+			}
+			t.helpers[name] = fmt.Sprintf("Definition %s := %s.\n", cn, lit)
 			t.horder = append(t.horder, name)
 			return cn
 		}
@@ -533,6 +600,11 @@ func (t *tr) typeAssert(e ast.Expr) (string, string, bool) {
 	return dbcStruct(tt), t.expr(ta.X), true
 }
 
+func isMapType(t types.Type) bool {
+	_, ok := t.Underlying().(*types.Map)
+	return ok
+}
+
 func isIdent(e ast.Expr, name string) bool {
 	id, ok := e.(*ast.Ident)
 	return ok && id.Name == name
@@ -570,6 +642,18 @@ func (t *tr) seq(stmts []ast.Stmt, c ctx, fall string) string {
 			}
 		}
 		t.failAt(s, "expression statement outside the subset (only pass.Reportf)")
+	case *ast.IncDecStmt:
+		ix, ok := x.X.(*ast.IndexExpr)
+		if !ok || x.Tok != token.INC {
+			t.failAt(s, "++/-- outside the subset (only m[k]++ on an integer-valued map)")
+		}
+		mt, isSet := t.mapKind(ix.X)
+		id, isId := ix.X.(*ast.Ident)
+		if mt == nil || isSet || !isId || !isInteger(mt.Elem()) {
+			t.failAt(s, "++/-- outside the subset (only m[k]++ on an integer-valued map)")
+		}
+		m := t.name(t.info.Uses[id])
+		return fmt.Sprintf("let %s := map_inc_%s %s %s in\n", m, t.keySuffix(s, mt), t.expr(ix.Index), m) + restE()
 	case *ast.AssignStmt:
 		return t.assign(x, rest, c, fall)
 	case *ast.IfStmt:
@@ -641,6 +725,8 @@ func (t *tr) keySuffix(at ast.Node, mt *types.Map) string {
 		return "bytes"
 	case isInteger(mt.Key()):
 		return "Z"
+	case namedIs(mt.Key(), "reflect", "Type"):
+		return "kind"
 	}
 	t.failAt(at, "map key type %s outside the subset", mt.Key())
 	return ""
@@ -745,7 +831,7 @@ func (t *tr) assign(x *ast.AssignStmt, rest []ast.Stmt, c ctx, fall string) stri
 			t.failAt(x, "make of a non-map or with a size")
 		}
 		rhs = "[]"
-	} else if cl, ok := x.Rhs[0].(*ast.CompositeLit); ok {
+	} else if cl, ok := x.Rhs[0].(*ast.CompositeLit); ok && isMapType(t.info.TypeOf(cl)) {
 		rhs = t.mapLit(cl)
 	} else {
 		rhs = t.expr(x.Rhs[0])
@@ -771,7 +857,14 @@ func (t *tr) ifStmt(x *ast.IfStmt, rest []ast.Stmt, c ctx, fall string) string {
 	// the scrutinee: plain condition, comma-ok map lookup, or type assertion
 	head, mid, tail := "", "", "" // head THEN mid ELSE tail
 	negated := false
-	if x.Init == nil {
+	if l := t.lenPositive(x); l != "" {
+		if t.guarded != "" {
+			t.failAt(x, "nested `if len(l) > 0` guards")
+		}
+		t.guarded = l
+		defer func() { t.guarded = "" }()
+		head, mid, tail = "match "+l+" with\n| g_hd :: _ =>\n", "\n| [] =>\n", "\nend"
+	} else if x.Init == nil {
 		head, mid, tail = "if "+t.expr(x.Cond)+" then\n", "\nelse\n", ""
 	} else {
 		as, ok := x.Init.(*ast.AssignStmt)
@@ -849,6 +942,28 @@ func (t *tr) ifStmt(x *ast.IfStmt, rest []ast.Stmt, c ctx, fall string) string {
 	}
 	return "let " + pat(as) + " :=\n" + head + t.branch(x.Body.List, ctx{}, as) + mid + t.branch(elseStmts, ctx{}, as) + tail + " in\n" +
 		t.seq(rest, c, fall)
+}
+
+// lenPositive: `if len(l) > 0 { .. }` without init and else, l a slice that the body does not assign -> Coq text of l
+func (t *tr) lenPositive(x *ast.IfStmt) string {
+	b, ok := x.Cond.(*ast.BinaryExpr)
+	if x.Init != nil || x.Else != nil || !ok || b.Op != token.GTR {
+		return ""
+	}
+	if tv, ok := t.info.Types[b.Y]; !ok || tv.Value == nil || tv.Value.ExactString() != "0" {
+		return ""
+	}
+	c, ok := b.X.(*ast.CallExpr)
+	if !ok || !isIdent(c.Fun, "len") || len(c.Args) != 1 {
+		return ""
+	}
+	if _, ok := t.info.TypeOf(c.Args[0]).Underlying().(*types.Slice); !ok {
+		return ""
+	}
+	if sel, ok := c.Args[0].(*ast.SelectorExpr); !ok || sel.Sel.Name != "Defs" {
+		return "" // only the read-only pass.File.Defs
+	}
+	return t.expr(c.Args[0])
 }
 
 func (t *tr) typeSwitch(x *ast.TypeSwitchStmt, c ctx) string {
